@@ -233,7 +233,7 @@ def observe(seed, tier, extra_args=()):
     t0 = time.time()
     exe = common.go_build("schedrun")
     if tier == "quick":
-        plans = [["-count", "700", "-maxjobs", "24", "-backlog", "1100"]]
+        plans = [["-count", "600", "-maxjobs", "24", "-backlog", "1100"], ["-count", "150", "-maxjobs", "24"]]
     else:
         plans = [["-count", "12000", "-maxjobs", "24", "-backlog", "1100"], ["-count", "3000", "-maxjobs", "80"], ["-count", "300", "-maxjobs", "400", "-backlog", "5000"]]
     summary = {"executions": 0, "events": 0, "replay_full_ok": 0, "replay_core_ok": 0, "final": 0,
@@ -242,7 +242,12 @@ def observe(seed, tier, extra_args=()):
                "samples": [], "builder_problems": [], "distinct": 0}
     distinct = set()
     for pi, plan in enumerate(plans):
-        rc, out, err = common.run([exe, "-seed", str(seed * 1000 + pi)] + plan + list(extra_args), timeout=6000)
+        # the harness module says go 1.19, i.e. the old, buffered timer channels; the second plan runs under
+        # the timer semantics a main module of go >= 1.23 gets (a pending tick is always deliverable)
+        runenv = dict(os.environ)
+        if pi == 1:
+            runenv["GODEBUG"] = "asynctimerchan=0"
+        rc, out, err = common.run([exe, "-seed", str(seed * 1000 + pi)] + plan + list(extra_args), timeout=6000, env=runenv)
         recs = [json.loads(l) for l in out.split("\n") if l.strip()]
         # the harness stops after an execution that left goroutines behind (they would disturb the next
         # ones); the remaining cases are run in fresh processes so that other failures are still looked for
@@ -252,7 +257,7 @@ def observe(seed, tier, extra_args=()):
             if not m or int(m.group(1)) + 1 >= int(plan[1]):
                 break
             restarts += 1
-            rc, out, err = common.run([exe, "-seed", str(seed * 1000 + pi)] + plan + list(extra_args) + ["-from", str(int(m.group(1)) + 1)], timeout=6000)
+            rc, out, err = common.run([exe, "-seed", str(seed * 1000 + pi)] + plan + list(extra_args) + ["-from", str(int(m.group(1)) + 1)], timeout=6000, env=runenv)
             recs += [json.loads(l) for l in out.split("\n") if l.strip()]
         if restarts:
             summary["restarts_after_stuck_execution"] = summary.get("restarts_after_stuck_execution", 0) + restarts
@@ -262,7 +267,7 @@ def observe(seed, tier, extra_args=()):
             if (r.get("caller_hung") or r.get("hang")) and not r.get("hang_stable"):
                 # (the second case: goroutines still alive 3 s after the call returned - also decided again, with 30 s)
                 rc2, out2, err2 = common.run([exe, "-seed", str(seed * 1000 + pi)] + plan + list(extra_args) +
-                                             ["-only", str(r["cfg"]["case"]), "-hang-after", "60s", "-quiesce", "30s"], timeout=600, check=False)
+                                             ["-only", str(r["cfg"]["case"]), "-hang-after", "60s", "-quiesce", "30s"], timeout=600, check=False, env=runenv)
                 again = [json.loads(l) for l in out2.split("\n") if l.strip()]
                 summary["slow_reruns"] = summary.get("slow_reruns", 0) + 1
                 if again:
